@@ -535,6 +535,21 @@ class FnWeaver:
         self.edits.append((a, b, [(replacement + '\n' * nl, 'tmpl', self.tmpl_file, 0)]))
         self.rules.add('D19')
 
+    def cut_expression(self, regex, replacement):
+        """D19 (expression form): the one expression matching `regex` in the body is replaced by a call to an external function declared in the
+        template (contract assumed).  The text must match exactly once; otherwise the anchor is reported lost (=> undecided, never silently ignored)."""
+        p = self.parts
+        body_a = self.src.toks[p['body_open']][2]
+        body_b = self.src.toks[p['body_close']][1]
+        ms = [m for m in re.finditer(regex, self.text) if m.start() >= body_a and m.end() <= body_b]
+        if len(ms) != 1:
+            self.lost.append('cutexpr /%s/ in %s (%d matches)' % (regex, self.qual, len(ms)))
+            return
+        a, b = ms[0].start(), ms[0].end()
+        nl = self.text[a:b].count('\n')
+        self.edits.append((a, b, [(replacement + '\n' * nl, 'tmpl', self.tmpl_file, 0)]))
+        self.rules.add('D19')
+
     def replace_arm(self, regex, replacement):
         """D8: the block of the match arm whose first line matches `regex` is replaced by `replacement` (nothing is concluded about that arm)"""
         rx = re.compile(regex)
@@ -700,13 +715,87 @@ class FnWeaver:
     def enumerate_to_index(self):
         """D22 (automatic): `for (i, x) in E.iter().enumerate() {` becomes `for i in 0..E.len() { let x = &E[i];`
         (Verus has no `Enumerate`; for arrays, slices and Vecs both forms visit the same (index, &element) pairs in the same order)."""
-        for m in list(re.finditer(r'for \((\w+), (\w+)\) in ([\w\.]+)\.iter\(\)\.enumerate\(\) \{', self.text)):
+        for m in list(re.finditer(r'for \((\w+), (\w+)\) in ([\w\.]+)\.(iter|into_iter)\(\)\.enumerate\(\) \{', self.text)):
             i_v, x_v, e = m.group(1), m.group(2), m.group(3)
             a, b = m.start(), m.end()
             # header up to (not including) the `{`, so that a loop invariant can still be placed in front of the brace
             self.edits.append((a, b - 1, [('for %s in 0..%s.len() ' % (i_v, e), 'repo', self.rel, self.line_at(a))]))
-            self.edits.append((b, b, [(' let %s = &%s[%s];' % (x_v, e, i_v), 'repo', self.rel, self.line_at(a))]))
+            # `into_iter()` hands out the elements by value: the index form copies them (the same for `Copy` element types; rustc rejects the rewrite otherwise)
+            self.edits.append((b, b, [(' let %s = %s%s[%s];' % (x_v, '&' if m.group(4) == 'iter' else '', e, i_v), 'repo', self.rel, self.line_at(a))]))
             self.rules.add('D22')
+
+    def index_loops(self):
+        """D23 (automatic): three loop headers over fixed-size arrays that Verus has no iterator specification for become index loops that visit
+        the same elements in the same order:
+          `for x in E.iter().flatten() {B}`        -> `for x_idx in 0..E.len() { if let Some(x) = &E[x_idx] {B} }`       (E: array/slice/Vec of Option)
+          `for x in E.iter_mut().take(K) {B}`      -> `let x_n = min(K, E.len()); for x_idx in 0..x_n { let x = &mut E[x_idx]; B }`
+        (the by-value array form is requested with //@arrayloop, it cannot be recognised syntactically)"""
+        s = self.src
+        for kw, ob in self.loops():
+            if s.tok_text(kw) != 'for':
+                continue
+            a, b = s.toks[kw][1], s.toks[ob][1]
+            hdr = s.text[a:b]
+            ln = self.line_at(a)
+            m = re.match(r'for (\w+) in ([\w\.]+)\.iter\(\)\.flatten\(\)\s*$', hdr)
+            if m:
+                x, e = m.groups()
+                self.edits.append((a, b, [('for %s_idx in 0..%s.len() ' % (x, e), 'repo', self.rel, ln)]))
+                off = s.toks[ob][2]
+                self.edits.append((off, off, [(' if let Some(%s) = &%s[%s_idx] {' % (x, e, x), 'repo', self.rel, self.line_at(off))]))
+                offc = s.toks[s.matches()[ob]][1]
+                self.edits.append((offc, offc, [('} ', 'repo', self.rel, self.line_at(offc))]))
+                self.rules.add('D23')
+                continue
+            m = re.match(r'for (\w+) in ([\w\.]+)\.iter_mut\(\)\.take\(([\w\.]+)\)\s*$', hdr)
+            if m:
+                x, e, k = m.groups()
+                head = 'let %s_n = if %s < %s.len() { %s } else { %s.len() }; for %s_idx in 0..%s_n ' % (x, k, e, k, e, x, x)
+                self.edits.append((a, b, [(head, 'repo', self.rel, ln)]))
+                off = s.toks[ob][2]
+                self.edits.append((off, off, [(' let %s = &mut %s[%s_idx];' % (x, e, x), 'repo', self.rel, self.line_at(off))]))
+                self.rules.add('D23')
+
+    def array_loop(self, n):
+        """D23 (requested): `for x in EXPR {B}` with EXPR a fixed-size array by value -> `let __arrN = EXPR; for x_idx in 0..__arrN.len() { let x = __arrN[x_idx]; B }`"""
+        s = self.src
+        ls = self.loops()
+        if n < 1 or n > len(ls):
+            self.lost.append('loop %d of %s (function has %d loops)' % (n, self.qual, len(ls)))
+            return
+        kw, ob = ls[n - 1]
+        a, b = s.toks[kw][1], s.toks[ob][1]
+        m = re.match(r'for (\w+) in (.*?)\s*$', s.text[a:b], re.S)
+        if not m:
+            raise WeaveError('%s: //@arrayloop %d needs `for <ident> in EXPR`' % (self.qual, n))
+        x, e = m.groups()
+        head = 'let __arr%d = %s; for %s_idx in 0..__arr%d.len() ' % (n, e, x, n)
+        self.edits.append((a, b, [(head, 'repo', self.rel, self.line_at(a))]))
+        off = s.toks[ob][2]
+        self.edits.append((off, off, [(' let %s = __arr%d[%s_idx];' % (x, n, x), 'repo', self.rel, self.line_at(off))]))
+        self.rules.add('D23')
+
+    def le_bytes_calls(self):
+        """D24 (automatic): `X.to_le_bytes()` / `T::from_le_bytes(B)` become `X.to_le_bytes_m()` / `T::from_le_bytes_m(B)`, the methods of the shim trait
+        `LeBytes` (shims/le_bytes.rs) whose bodies are exactly those std calls: Verus cannot attach a specification to the std functions themselves
+        (their return type mentions an anonymous constant) -- the little-endian meaning is an assumption of the shim"""
+        s = self.src
+        for k in s.code:
+            if s.toks[k][0] == 'id' and s.tok_text(k) in ('to_le_bytes', 'from_le_bytes'):
+                nk = s.next_code(k)
+                if nk is not None and s.is_p(nk, '('):
+                    off = s.toks[k][2]
+                    self.edits.append((off, off, [('_m', 'repo', self.rel, self.line_at(off))]))
+                    self.rules.add('D24')
+
+    def io_error_calls(self):
+        """D25 (automatic): `io::Error::new(io::ErrorKind::K, "text")` becomes `io_error_unverified()` (shims/io_stream.rs): a boxed `dyn Error` payload is
+        outside Verus' subset, and no contract distinguishes one io::Error value from another"""
+        for m in re.finditer(r'io::Error::new\(\s*io::ErrorKind::\w+,\s*"[^"\n]*",?\s*\)', self.text):
+            a, b = m.start(), m.end()
+            nl = self.text[a:b].count('\n')
+            self.edits.append((a, b, [('io_error_unverified()' + '\n' * nl, 'repo', self.rel, self.line_at(a))]))
+            self.rules.add('D25')
 
     def closure_tuple_params(self):
         """D16 (automatic): a closure whose single parameter is a tuple pattern, `|(a, b)| E`, becomes `|__cpK| { let (a, b) = __cpK; E }`
@@ -1087,6 +1176,9 @@ def weave(unit_path):
                 fw.local_consts_to_let()
                 fw.closure_tuple_params()
                 fw.enumerate_to_index()
+                fw.index_loops()
+                fw.le_bytes_calls()
+                fw.io_error_calls()
             fw.rename_underscore_params()
             attrs = []
             spec_files = []
@@ -1139,6 +1231,9 @@ def weave(unit_path):
                 elif sd == 'cut':
                     mm3 = re.match(r'/(.*?)/\s*\.\.\s*/(.*?)/\s*=>\s*(.*)$', sarg)
                     fw.cut_statements(mm3.group(1), mm3.group(2), mm3.group(3))
+                elif sd == 'cutexpr':
+                    mm3 = re.match(r'/(.*)/\s*=>\s*(.*)$', sarg)
+                    fw.cut_expression(mm3.group(1), mm3.group(2))
                 elif sd == 'summarize':
                     mm3 = re.match(r'(\d+)\s*=>\s*(.*)$', sarg)
                     fw.summarize_loop(int(mm3.group(1)), mm3.group(2))
@@ -1163,6 +1258,8 @@ def weave(unit_path):
                     fw.add_loop_spec(int(la[0]), blk, blk_line, itn)
                 elif sd == 'forwhile':
                     fw.desugar_for_continue(int(sarg))
+                elif sd == 'arrayloop':
+                    fw.array_loop(int(sarg))
                 elif sd == 'closure':
                     cn, hdr = sarg.split(None, 1)
                     fw.annotate_closure(int(cn), hdr)
